@@ -53,7 +53,7 @@ def where(body, bb, idx=None):
     return graph(body).where(bb, idx)
 
 
-def dominating_edges(tr, body, site_bb):
+def dominating_edges(tr, body, site_bb, _depth=0):
     """switch edges that edge-dominate site_bb.
     returns list of dicts: {bb, kind:'bool'|'enum', label, node, sw}"""
     g = graph(body)
@@ -99,6 +99,33 @@ def dominating_edges(tr, body, site_bb):
             if sw.otherwise not in tv.values() and g.edge_dominates((bb, sw.otherwise), site_bb):
                 node = peel(tr.expand(tr.place(body, pl, (bb, len(g.stmts(bb))))))
                 out.append({"bb": bb, "kind": "int", "label": "otherwise", "node": node, "sw": sw})
+    # a bool switch on a local that is only ever assigned constants (`matches!`, `let ok = if c { true } else
+    # { false }`, short-circuit `&&`/`||` lowering): on its `true` edge the last assignment was one of the
+    # `true` assignments, so the guards common to all of those assignment sites hold as well
+    if _depth < 3:
+        extra = []
+        for e in list(out):
+            if e["kind"] != "bool":
+                continue
+            sw = e["sw"]
+            pl = sw.cond.get("copy") or sw.cond.get("move")
+            if pl is None or pl["p"]:
+                continue
+            ds = g.reaching(pl["l"], (sw.bb, len(g.stmts(sw.bb))))
+            if not ds or not all(d[3] == "assign" and d[5]["k"] == "use" and "const" in d[5]["op"] and d[5]["op"]["const"].get("disp") in ("true", "false") for d in ds):
+                continue
+            srcs = [d[1] for d in ds if d[5]["op"]["const"]["disp"] == e["label"]]
+            if not srcs:
+                continue
+            common = None
+            for sb_ in srcs:
+                es = dominating_edges(tr, body, sb_, _depth + 1)
+                keys = {(x["bb"], x["label"]): x for x in es}
+                common = keys if common is None else {k: v for k, v in common.items() if k in keys}
+            for k, v in (common or {}).items():
+                if not any(x["bb"] == k[0] and x["label"] == k[1] for x in out + extra):
+                    extra.append(dict(v, via="const-phi@bb%d" % sw.bb))
+        out = out + extra
     body._cache[ck] = out
     return out
 
@@ -222,6 +249,39 @@ def cmp_on_edge(tr, edge):
     return (op, a, b)
 
 
+def effective_predicate(tr, facts, node, names, depth=0):
+    """node is the bool result of `names`-named call, directly or through a workspace-local bool helper whose
+    returned value is that call's result on some paths and the constant `true` on the others
+    -> (name, call-node of the underlying predicate) or None"""
+    node = peel(node)
+    if node[0] != "call" or depth > 2:
+        return None
+    c = tr.call_of(node)
+    if c.name in names:
+        return (c.name, node)
+    for d in c.targets_def():
+        hb = facts.bodies.get(d)
+        if hb is None or hb.kind != "fn" or hb.local_ty(0)["s"] != "bool":
+            continue
+        found = None
+        ok = True
+        for (_i, _j, n) in ret_assigns(tr, hb):
+            for lf in leaves(n):
+                lf = peel(lf)
+                if lf[0] == "const":
+                    if lf[1] != "true":
+                        ok = False
+                    continue
+                r = effective_predicate(tr, facts, lf, names, depth + 1)
+                if r is None:
+                    ok = False
+                else:
+                    found = r
+        if ok and found:
+            return found
+    return None
+
+
 def field_name(node):
     """last field name of a (possibly wrapped) field node"""
     node = peel(node)
@@ -288,13 +348,18 @@ def field_writes(facts, adt_def, field):
 
 def agg_sites(facts, adt_def, variant=None):
     """aggregates constructing adt_def -> [(body, bb, idx, rv)]"""
-    out = []
-    for b in facts.all_bodies():
-        for i, blk in enumerate(b.blocks):
-            for j, s in enumerate(blk["stmts"]):
-                if s["k"] == "assign" and s["rv"]["k"] == "agg" and s["rv"]["ak"] == "adt" and s["rv"]["def"] == adt_def:
-                    if variant is None or s["rv"]["variant"] == variant:
-                        out.append((b, i, j, s["rv"]))
+    idx = getattr(facts, "_agg_index", None)
+    if idx is None:
+        idx = {}
+        for b in facts.all_bodies():
+            for i, blk in enumerate(b.blocks):
+                for j, s in enumerate(blk["stmts"]):
+                    if s["k"] == "assign" and s["rv"]["k"] == "agg" and s["rv"]["ak"] == "adt":
+                        idx.setdefault(s["rv"]["def"], []).append((b, i, j, s["rv"]))
+        facts._agg_index = idx
+    out = idx.get(adt_def, [])
+    if variant is not None:
+        out = [x for x in out if x[3]["variant"] == variant]
     return out
 
 
